@@ -199,6 +199,18 @@ let process line =
              match String.split_on_char ':' o with
              | [p; s; r] -> check_score "si" i (u64_of_string p) s r
              | _ -> df "score: bad sx observation") (split ',' (oget "sx"));
+         (* Distribution<f32>::sample: the sampled score is score(p) of the drawn p *)
+         List.iteri (fun i o ->
+             match String.split_on_char ':' o with
+             | [p; sv] ->
+                 let p64 = f64_of_u64 (u64_of_string p) in
+                 let ms = f64_sample d p64 in
+                 let ms_txt = (match ms with Ok x -> show_u64 (canon32 (f32bits_of_f64 x)) | Panic _ -> "P" | _ -> "E") in
+                 let sv_c = if sv = "P" then "P" else show_u64 (canon32 (u64_of_string sv)) in
+                 if sv_c <> ms_txt then
+                   df (Printf.sprintf "sample #%d p=%s impl=%s model=%s" i p sv ms_txt);
+                 if sv = "P" && in_scope then pf (Printf.sprintf "sample-panic #%d p=%s" i p)
+             | _ -> df "sample: bad observation") (split ',' (oget "sm"));
          lap "scores";
          (* ---------- the property, decided by the extracted checker ---------- *)
          let pvl = List.rev !pv_list and brl = List.rev !br_list and rtl = List.rev !rt_list in
